@@ -288,8 +288,15 @@ def bp2(img, threshold):
     # cx -= nx/2*(padding-1): recorded as assignments to the tuple stored in centroids[:, frame]
     n_ok = 0
     for conds, v in rets:
-        pairs = [a.args[2] for a in find_atoms(v, lambda a: isinstance(a, Fn) and a.name == "setitem")
-                 if isinstance(a.args[2], tuple) and len(a.args[2]) == 2]
+        pairs = []
+        for a in find_atoms(v, lambda a: isinstance(a, Fn) and a.name == "setitem"):
+            val = a.args[2]
+            if isinstance(val, tuple) and len(val) == 2:
+                pairs.append(val)
+            elif isinstance(val, Rat):
+                comp = vector_components(val)
+                if comp is not None:
+                    pairs.append(comp)
         for cx, cy in pairs:
             for comp, axis, label in ((cx, -1, "x"), (cy, -2, "y")):
                 ts = comp.terms() if isinstance(comp, Rat) else None
@@ -316,6 +323,27 @@ def bp2(img, threshold):
         check_equal(rep, "H6.quad-cell", f.fq + " == (sum(-2)[..,1]-sum(-2)[..,0], sum(-1)[..,1]-sum(-1)[..,0])", _strip_norm(rets[0][1], img),
                     want, f.where(), what="quad-cell signal (numerator)")
     rep.floor("C15 obligations", len(rep.obligations), 20)
+
+
+def vector_components(v):
+    """v = sum_k s_k * array((a_k, b_k)) [+ opaque 2-vectors]  ->  (sum s_k a_k, sum s_k b_k)"""
+    ts = v.terms()
+    if ts is None:
+        return None
+    c0, c1 = Rat({}), Rat({})
+    for c, m in ts:
+        vec = [(a, e) for a, e in m if isinstance(a, Fn) and a.name in ("array", "paths") and e == 1]
+        if len(vec) != 1:
+            return None
+        a = vec[0][0]
+        rest = Rat({tuple(x for x in m if x[0] != a): c})
+        if a.name == "array" and isinstance(a.args[0], tuple) and len(a.args[0]) == 2 and all(isinstance(x, Rat) for x in a.args[0]):
+            c0 = c0 + rest * a.args[0][0]
+            c1 = c1 + rest * a.args[0][1]
+        else:
+            c0 = c0 + rest * Rat.atom(Fn("getitem", (Rat.atom(a), Rat.const(0))))
+            c1 = c1 + rest * Rat.atom(Fn("getitem", (Rat.atom(a), Rat.const(1))))
+    return (c0, c1)
 
 
 def _strip_norm(v, img):
